@@ -199,6 +199,14 @@ func (o *storeOp) String() string {
 	return "?"
 }
 
+// chunkOff: the offset at which a chunk-reader consumer opens the object.
+func (o *storeOp) chunkOff() int {
+	if o.ReadBuf%2 == 0 {
+		return o.Off
+	}
+	return 0
+}
+
 // harnessSlicer carves a composite parent into its children.
 type harnessSlicer struct {
 	w      *storeWorld
@@ -427,12 +435,15 @@ func (w *storeWorld) readBuffer(op *storeOp, b buffer.Buffer, size int) (got []b
 			hold()
 		}
 	case consChunkReader:
-		cr := b.ToChunkReader(0, max(op.MaxChunk, 1))
+		// half of them at an offset inside, at or beyond the end of the object
+		// (what a ByteStream Read with read_offset does)
+		off := op.chunkOff()
+		cr := b.ToChunkReader(int64(off), max(op.MaxChunk, 1))
 		for {
 			chunk, e := cr.Read()
 			if e == io.EOF {
 				cr.Close()
-				return got, true, nil
+				return got, off == 0, nil
 			}
 			if e != nil {
 				cr.Close()
@@ -558,6 +569,14 @@ func (w *storeWorld) doGet(op *storeOp) {
 		off := 0
 		if op.Cons == consReadAt {
 			off = op.Off
+		}
+		if op.Cons == consChunkReader {
+			off = op.chunkOff()
+			// (beyond the end: an error or no data, never bytes)
+			if off > len(expect) && len(got) > 0 && !w.c.Failed() {
+				w.c.Fail("wrong-bytes", "%s: a chunk reader opened at offset %d of a %d byte object delivered %s", op, off, len(expect), short(got))
+				return
+			}
 		}
 		if off <= len(expect) {
 			end := off + len(got)
@@ -785,7 +804,7 @@ func drawOps(t *sim.Tape, cfg *storeCfg, objs []*object, canon map[int]int, wo *
 				op.Inst = inst()
 				op.Cons = []int{consByteSlice, consChunkReader, consReader, consReadAt, consIntoWriter, consDiscard, consProto, 99}[t.Choose(8)]
 				n := len(objs[op.Obj].Content)
-				op.Off = t.Choose(n + 1)
+				op.Off = t.Choose(n + 3)
 				op.ReadBuf = 1 + t.Choose(n+2)
 				op.MaxChunk = []int{1 << 16, 1, 2, 7}[t.Choose(4)]
 				if wo.MaxHolds > 0 {
